@@ -361,11 +361,17 @@ Qed.
 (* |hkl B^T|^2 = hkl G* hkl^T   and   |uvw A|^2 = uvw G uvw^T *)
 Lemma rlength_mat (A : M3) (hkl : V3) :
   vnorm2 ROps (vmat ROps hkl (mtr (minv ROps A))) = vdot ROps (vmat ROps hkl (rgram A)) hkl.
-Proof. unfold rgram, vnorm2. rewrite <- vmat_mmul, vdot_vmat_adj. rewrite mtr_invol. reflexivity. Qed.
+Proof.
+  unfold rgram, vnorm2. rewrite <- vmat_mmul.
+  rewrite (vdot_vmat_adj (vmat ROps hkl (mtr (minv ROps A))) hkl (minv ROps A)). reflexivity.
+Qed.
 
 Lemma dlength_mat (A : M3) (uvw : V3) :
   vnorm2 ROps (vmat ROps uvw A) = vdot ROps (vmat ROps uvw (gram A)) uvw.
-Proof. unfold gram, vnorm2. rewrite <- vmat_mmul, vdot_vmat_adj. rewrite mtr_invol. reflexivity. Qed.
+Proof.
+  unfold gram, vnorm2. rewrite <- vmat_mmul.
+  rewrite (vdot_vmat_adj (vmat ROps uvw A) uvw (mtr A)), mtr_invol. reflexivity.
+Qed.
 
 (* interplanar spacing.  The lattice plane (hkl) nearest the origin is
    { uvw A : uh + vk + wl = 1 }; with g = hkl B^T:
